@@ -8,6 +8,7 @@ CONSTANTS
  CleanSet = {}
  UseCache = TRUE
  ForeignCached = {}
+ PublishEarly = FALSE
  CacheKeyIgnoresPrefix = FALSE
  WithReader = TRUE
 INVARIANTS SuccessImpliesAllReachableStored FailureLeavesTreeUsable
